@@ -106,6 +106,15 @@ fn c02_grid(tier: Tier) -> Vec<Program> {
             .collect();
         out.push(Program { keys: vec![format!("generations-{variant}"), "idle".into()], blobs: vec![Blob::new(3, 1), Blob::new(4, 2), Blob::new(5, 3)], steps });
     }
+    // single chunks of tens of MiB (more than any sensible per-call cap of an I/O layer)
+    let big = tier.pick((1usize << 25) + 4097, (1usize << 27) + 1);
+    for (bi, (entry, chunks, fl)) in [(WEntry::OneShotAlgo, vec![], Fl::Sync), (WEntry::OneShotAlgo, vec![], Fl::Async), (WEntry::Opts, vec![5, big - 5], Fl::Sync), (WEntry::Opts, vec![big], Fl::Async)].into_iter().enumerate() {
+        let mut s = WriteSpec::simple(if bi % 2 == 0 { Some(0) } else { None }, 0);
+        s.entry = entry;
+        s.chunks = chunks;
+        s.algo = if bi < 2 { Algo::Sha256 } else { Algo::Sha1 };
+        out.push(Program { keys: keys.clone(), blobs: vec![Blob::new(big, 91)], steps: vec![Step { op: Op::Write(s), fl }] });
+    }
     // the SHA-256-only entry points
     for &len in &lens {
         for fl in [Fl::Sync, Fl::Async] {
@@ -162,8 +171,17 @@ fn c02_after(ctx: &Ctx, prog: &Program, i: usize, r: &StepResult, model: &Model,
         let key = ctx.key(k);
         got.push(("read_sync(key)", conv(cacache::read_sync(cache, key))));
         got.push(("read(key)", conv(crate::rt::block_on(cacache::read(cache, key)))));
+        // (the way the stream is consumed rotates: small reads, one read_to_end into a vector
+        // that is not empty — after no / one plain read —, one read_exact, default reads)
+        let bufs: Vec<usize> = match (data.len() + w.chunks.len() + i) % 5 {
+            0 => vec![7, 8192, 1],
+            1 => vec![usize::MAX - 4, 0],
+            2 => vec![usize::MAX - 4, 1 + data.len() / 3],
+            3 => vec![usize::MAX - 1],
+            _ => vec![],
+        };
         for fl in [Fl::Sync, Fl::Async] {
-            let s = crate::exec::run_step(ctx, &Step { op: Op::Stream { by: By::Key(k), bufs: vec![7, 8192, 1] }, fl });
+            let s = crate::exec::run_step(ctx, &Step { op: Op::Stream { by: By::Key(k), bufs: bufs.clone() }, fl });
             got.push((if fl == Fl::Sync { "SyncReader(key)+check" } else { "Reader(key)+check" }, s.out));
         }
         match cacache::metadata_sync(cache, key) {
@@ -217,8 +235,8 @@ pub fn c02() -> ProgEngine {
     ProgEngine {
         id: "C02",
         rule: "a fixed grid (5 algorithms x boundary lengths incl. 0, 1, 8 KiB±1 and the 1 MiB mmap threshold -1/0/+1 x every write entry point x \
-               declared/undeclared size x 3 chunkings with empty, single-byte and decreasing chunks) plus random writes with hostile keys; oracle: the call \
-               succeeds and returns the model digest (sha1/sha2/xxhash crates, own base64), then read_sync, read, SyncReader/Reader+check by key and \
+               declared/undeclared size x 3 chunkings with empty, single-byte and decreasing chunks), values with long zero runs, single chunks of 32 MiB+ (128 MiB+ in the thorough tier), hundreds of generations of one key, plus random writes with hostile keys; oracle: the call \
+               succeeds and returns the model digest (sha1/sha2/xxhash crates, own base64), then read_sync, read, SyncReader/Reader+check (consumed by small reads / one read_to_end into a non-empty vector / one read_exact) by key and \
                read_hash_sync, read_hash, exists by the RETURNED address all give back exactly the bytes. Non-trivial = >=2 chunks, or declared size, or \
                length in {0,1,2^20-1,2^20,2^20+1,>2^20}, or a non-alphanumeric key, or algorithm != SHA-256; distinct = distinct case",
         assumptions: &["healthy filesystem (tmpfs scratch)", "declared sizes / integrities are correct in this property (mismatches belong to C08)"],
